@@ -1,8 +1,12 @@
 package symex
 
 import (
+	"fmt"
 	"go/token"
 	"math"
+	"math/big"
+	"strconv"
+	"strings"
 
 	"gosmt/smt"
 )
@@ -81,6 +85,63 @@ func init() {
 		}
 		// unconstrained: may be any float64 including NaN and ±Inf
 		return ex.freshFP("math.Pow")
+	})
+	const dec = "github.com/shopspring/decimal"
+	// InexactFloat64: some float64 near the decimal's value; no relation between the two is assumed
+	// (DESIGN P5: no solver here is trustworthy on symbolic real->float); never NaN.
+	inexact := func(ex *Exec, fr *frame, pos token.Pos, args []value) value {
+		d := args[0].(structure)
+		if n, ok := (*d[0].(*value)).(BigV); ok {
+			if c, isC := n.t.ConstInt(); isC {
+				if e, isE := d[1].(*smt.Term).ConstInt(); isE && e.IsInt64() && e.Int64() > -400 && e.Int64() < 400 {
+					f, _ := new(big.Float).SetPrec(200).SetInt(c).Float64()
+					if c.BitLen() < 60 {
+						v, _ := strconv.ParseFloat(c.String()+"e"+e.String(), 64)
+						f = v
+					}
+					return ex.fpConst(f)
+				}
+			}
+		}
+		r := ex.freshFP("decimal.InexactFloat64")
+		ex.assume(ex.b.Not(ex.fpIsNaN(r)))
+		return r
+	}
+	reg("("+dec+".Decimal).InexactFloat64", inexact)
+	reg("("+dec+".Decimal).Float64", func(ex *Exec, fr *frame, pos token.Pos, args []value) value {
+		return tuple{inexact(ex, fr, pos, args), ex.freshBool("decimal.Float64.exact")}
+	})
+	// NewFromFloat: panics on NaN/Inf (documented); the shortest-representation digits of a symbolic float are
+	// not computed: the result is an arbitrary decimal (symbolic mantissa and exponent).
+	reg(dec+".NewFromFloat", func(ex *Exec, fr *frame, pos token.Pos, args []value) value {
+		f := args[0].(*smt.Term)
+		if c, ok := fpConstVal(f); ok {
+			if math.IsNaN(c) || math.IsInf(c, 0) {
+				ex.oblige("panic", "decimal.NewFromFloat: cannot create a Decimal from NaN/Inf", fr, pos, ex.b.False)
+			}
+			s := strconv.FormatFloat(c, 'f', -1, 64)
+			neg := strings.HasPrefix(s, "-")
+			s = strings.TrimPrefix(s, "-")
+			exp := 0
+			if i := strings.IndexByte(s, '.'); i >= 0 {
+				exp = -(len(s) - i - 1)
+				s = s[:i] + s[i+1:]
+			}
+			n, _ := new(big.Int).SetString(s, 10)
+			if neg {
+				n.Neg(n)
+			}
+			return ex.mkDecimal(ex.b.Int(n), exp)
+		}
+		ex.oblige("panic", "decimal.NewFromFloat: cannot create a Decimal from NaN/Inf", fr, pos, ex.b.Not(ex.b.Or(ex.fpIsNaN(f), ex.fpIsInf(f))))
+		ex.fpSeq++
+		n := ex.b.Var(fmt.Sprintf("decimal.NewFromFloat.n!%d", ex.fpSeq), smt.SInt, nil, nil)
+		e := ex.b.Var(fmt.Sprintf("decimal.NewFromFloat.exp!%d", ex.fpSeq), smt.SInt, big.NewInt(-400), big.NewInt(400))
+		if ex.solver != nil {
+			ex.solver.Declare(n)
+			ex.solver.AssertRange(e)
+		}
+		return structure{ex.bigCell(n), e}
 	})
 	reg("math.Float64bits", func(ex *Exec, fr *frame, pos token.Pos, args []value) value {
 		x := args[0].(*smt.Term)
